@@ -22,7 +22,8 @@
 
     Statements only; proofs are in Proofs/ChainProofs.v. *)
 From Coq Require Import ZArith List Bool.
-From Canto Require Import Model.Epochs Model.Chain Proofs.ChainProofs.
+From Canto Require Import Model.Epochs Model.Chain Proofs.ChainProofs Proofs.ChainSupply.
+From Canto Require Model.Inflation Model.Coinswap Model.Csr Model.Authority.
 Import ListNotations.
 Open Scope Z_scope.
 
@@ -88,6 +89,73 @@ Theorem C06_failed_cosmos_tx_leaves_no_trace : forall now s t,
   snd (deliver_tx now s t) = false -> fst (deliver_tx now s t) = s.
 Proof. exact deliver_tx_rejected_no_trace_cosmos. Qed.
 
+(* chain-level accounting: consequences of determinism of the composed model used by C05 / C10 / C02 *)
+
+(* over every block list: the acanto supply after = the supply before + the mint events of the blocks
+   (x/inflation: the provision, per due epoch end) - the burn events of the transactions (x/csr hook:
+   fee - csr fee for a registered target, the whole fee otherwise; x/coinswap: the burned part of a
+   pool-creation fee) -- the events are the explicit contribution formulas of Model/Chain.v carried
+   by the block results, and nothing else moves the supply *)
+Theorem C06_supply_accounting : forall bs n,
+  supply (committed (fst (run_blocks bs n))) =
+  supply (committed n) + minted_total (snd (run_blocks bs n)) - burned_total (snd (run_blocks bs n)).
+Proof. exact supply_accounting. Qed.
+
+Theorem C06_supply_accounting_every_height : forall bs n (k : nat),
+  supply (committed (fst (run_blocks (firstn k bs) n))) =
+  supply (committed n) + minted_total (firstn k (snd (run_blocks bs n))) - burned_total (firstn k (snd (run_blocks bs n))).
+Proof. exact supply_accounting_every_height. Qed.
+
+(* restarts, queries, mempool checks and simulations contribute nothing *)
+Theorem C06_supply_accounting_history : forall h n,
+  supply (committed (fst (run_ops h n))) =
+  supply (committed n) + minted_total (results_of (snd (run_ops h n))) - burned_total (results_of (snd (run_ops h n))).
+Proof. exact supply_accounting_history. Qed.
+
+Theorem C06_supply_accounting_block : forall b n,
+  supply (committed (fst (run_block b n))) =
+  supply (committed n) + r_minted (snd (run_block b n)) - zsum (r_burned (snd (run_block b n))).
+Proof. exact run_block_supply. Qed.
+
+(* what contributes 0: parameter updates, other messages (conversions, governance bookkeeping), failed
+   EVM executions, every coinswap message but a pool-creating addition, additions to an existing pool
+   or with a creation fee in another denomination, the whole end-blocker; a rejected transaction *)
+Theorem C06_supply_accounting_zero_contributions :
+  (forall s a u, tx_burn_of (TxParams a u) s = 0) /\
+  (forall s acc, tx_burn_of (TxOther acc) s = 0) /\
+  (forall s sender limit aok cok e, tx_burn_of (TxEvm sender limit aok cok false e) s = 0) /\
+  (forall s o, match o with Coinswap.AddLiq _ _ _ _ _ _ => False | _ => True end -> tx_burn_of (TxSwap o) s = 0) /\
+  (forall s sender n q mt es ml dl, Coinswap.lookup_pool n (Coinswap.st_pools (c_swap s)) = Some q ->
+     tx_burn_of (TxSwap (Coinswap.AddLiq sender (Coinswap.Tok n) mt es ml dl)) s = 0) /\
+  (forall s sender n mt es ml dl,
+     Coinswap.denom_eqb (Coinswap.p_cfee_denom (Coinswap.st_params (c_swap s))) Coinswap.Std = false ->
+     tx_burn_of (TxSwap (Coinswap.AddLiq sender (Coinswap.Tok n) mt es ml dl)) s = 0) /\
+  (forall us s, supply (end_blocker us s) = supply s).
+Proof. exact zero_contributions. Qed.
+
+Theorem C06_supply_accounting_rejected_tx : forall now t r s,
+  snd (deliver_tx now s t) = false -> hd 0 (burns_of now (t :: r) s) = 0.
+Proof. exact burns_of_rejected. Qed.
+
+(* module accounts: the inflation module account is empty after every block; the csr module account
+   is left as it was by every block (while the csr share is not negative, which governance preserves);
+   the coinswap module account (standard coin) is left as it was by every block (no transfer addressed
+   to the module account itself -- the real bank refuses those) *)
+Theorem C06_supply_accounting_inflation_module_empty : forall bs n,
+  infl_module (committed n) = 0 -> infl_module (committed (fst (run_blocks bs n))) = 0.
+Proof. exact inflation_module_empty. Qed.
+
+Theorem C06_supply_accounting_csr_module_unchanged : forall bs n,
+  shares_ok (committed n) ->
+  shares_ok (committed (fst (run_blocks bs n))) /\
+  csr_module (committed (fst (run_blocks bs n))) = csr_module (committed n).
+Proof. exact csr_module_unchanged. Qed.
+
+Theorem C06_supply_accounting_coinswap_module_unchanged : forall bs n,
+  Forall blk_ok bs ->
+  swap_module (committed (fst (run_blocks bs n))) = swap_module (committed n).
+Proof. exact coinswap_module_unchanged. Qed.
+
 Print Assumptions C06_run_functional.
 Print Assumptions C06_results_prefix.
 Print Assumptions C06_stutter_invariance.
@@ -98,3 +166,12 @@ Print Assumptions C06_reads_do_not_touch_committed.
 Print Assumptions C06_checktx_only_checkstate.
 Print Assumptions C06_failed_tx_leaves_no_trace.
 Print Assumptions C06_failed_cosmos_tx_leaves_no_trace.
+Print Assumptions C06_supply_accounting.
+Print Assumptions C06_supply_accounting_every_height.
+Print Assumptions C06_supply_accounting_history.
+Print Assumptions C06_supply_accounting_block.
+Print Assumptions C06_supply_accounting_zero_contributions.
+Print Assumptions C06_supply_accounting_rejected_tx.
+Print Assumptions C06_supply_accounting_inflation_module_empty.
+Print Assumptions C06_supply_accounting_csr_module_unchanged.
+Print Assumptions C06_supply_accounting_coinswap_module_unchanged.
